@@ -25,6 +25,8 @@ func c08(c *eng.Ctx, r *eng.Report) {
 		"R8.7 the encoder/decoder cache is keyed by the Go type together with its struct tags; R8.8 every function of decode.go that pulls a string payload from the stream itself (readFull/readByte) carries the single-byte canonical-form guard, header/size readers and Raw exempt by a reviewed table. " +
 		"R8.9 every comparison of a size with the short/long header boundary, in encoder and decoder alike, is equivalent to `size < 56`. " +
 		"R8.10 every string header the encoder writes (call of encodeStringHeader) is reached only on paths that excluded the single-byte form (`len != 1` or `b[0] > 0x7f`), or has a constant size other than 1 — the decoder rejects a one-byte string below 0x80 behind a header, so a writer without the guard produces encodings that do not decode; " +
+		"R8.12 Stream.Kind() reports size 0 for a single byte below 0x80 as well as for the empty string/list, so wherever its size result is tested for zero the kind result of the same call is tested too on that path (`size == 0 && kind != Byte`) — otherwise a one-byte value is taken for an empty one; " +
+		"R8.13 no function of the package hands out or stores the address of an element of a slice field that the package also appends to (the pointer goes stale when the slice grows — list headers are written through such pointers); " +
 		"R8.11 willRead returns nil only on paths that charged the read to both budgets: the enclosing list's position (or no list is open) and the stream's remaining input limit (or the stream is unlimited). " +
 		"Not decided: round-trip equality and uniqueness of encodings for all values; the rest of the encoder."
 	r.Assume = []string{"reflect and io.Reader behave as documented"}
@@ -38,6 +40,8 @@ func c08(c *eng.Ctx, r *eng.Report) {
 	c08ShortLongBoundary(c, r)
 	c08EncoderSingleByte(c, r)
 	c08WillReadAccounting(c, r)
+	c08EmptyNotByte(c, r)
+	c08NoElementPointers(c, r)
 }
 
 // payloadExempt: functions that pull bytes from the input without being the
@@ -769,4 +773,157 @@ func c08WillReadAccounting(c *eng.Ctx, r *eng.Report) {
 		}
 		r.Check(bad == "" && nret > 0, rule, "willRead:"+bd.name, c.Pos(fn.Pos()), "every nil return charged the "+bd.name+" budget (or it does not apply)", fmt.Sprintf("(*Stream).willRead can return nil at %s on a path that neither updated s.%s nor established that the budget does not apply: the read is not charged to the %s, so a crafted element may claim more bytes than its enclosing list or the input limit holds and the decoder reads/allocates past them instead of failing with the canonical error", bad, bd.field, bd.name))
 	}
+}
+
+// c08EmptyNotByte: the (kind, size) pair of Stream.Kind() encodes three cases
+// in size == 0: empty string, empty list and — with kind Byte — a one-byte
+// value whose payload is the tag itself.
+func c08EmptyNotByte(c *eng.Ctx, r *eng.Report) {
+	const rule = "R8.12"
+	r.Min(rule, 1)
+	kindFn := c.Func(rlpPkg, "(*Stream).Kind")
+	if !r.Anchor(kindFn != nil, rule, "(*Stream).Kind") {
+		return
+	}
+	n := 0
+	for _, fn := range c.PkgFuncs(rlpPkg) {
+		if c.IsTestFunc(fn) || fn == kindFn {
+			continue
+		}
+		i := 0
+		for _, s := range eng.Sites(fn) {
+			call, ok := s.Instr.(*ssa.Call)
+			if !ok || call.Call.StaticCallee() != kindFn || call.Referrers() == nil {
+				continue
+			}
+			var kindV, sizeV ssa.Value
+			for _, ref := range *call.Referrers() {
+				if ex, isE := ref.(*ssa.Extract); isE {
+					switch ex.Index {
+					case 0:
+						kindV = ex
+					case 1:
+						sizeV = ex
+					}
+				}
+			}
+			if sizeV == nil {
+				continue
+			}
+			// every branch edge on which size == 0 is established
+			for _, b := range fn.Blocks {
+				iff, isIf := b.Instrs[len(b.Instrs)-1].(*ssa.If)
+				if !isIf {
+					continue
+				}
+				for succ := 0; succ < 2; succ++ {
+					conj := eng.Conjuncts(iff.Cond, succ == 0, iff)
+					zero := false
+					for _, cd := range conj {
+						if m, ok := cd.Cmp(); ok && m.X == sizeV {
+							if k, isK := eng.ConstInt(m.Y); isK && k == 0 && (m.Op == token.EQL || m.Op == token.LEQ) {
+								zero = true
+							}
+						}
+					}
+					if !zero {
+						continue
+					}
+					n++
+					withKind := false
+					for _, cd := range append(conj, eng.EdgeConds(b)...) {
+						if m, ok := cd.Cmp(); ok && kindV != nil && (m.X == kindV || m.Y == kindV) {
+							withKind = true
+						}
+					}
+					// `size == 0 && kind != Byte`: the kind test is the very next branch on that edge
+					if nb := b.Succs[succ]; !withKind && len(nb.Preds) == 1 {
+						if i2, isIf2 := nb.Instrs[len(nb.Instrs)-1].(*ssa.If); isIf2 {
+							if m, ok := eng.DecodeCmp(i2.Cond); ok && kindV != nil && (m.X == kindV || m.Y == kindV) {
+								withKind = true
+							}
+						}
+					}
+					key := fmt.Sprintf("empty-test:%s#%d", strings.TrimPrefix(eng.FuncName(fn), "storage/rlp."), i)
+					i++
+					r.Check(withKind, rule, key, c.Pos(call.Pos()), "size == 0 is read together with the kind of the same Kind() call", eng.FuncName(fn)+" takes `size == 0` of Stream.Kind() for an empty value without looking at the kind: Kind() also reports size 0 for a single byte below 0x80 (kind Byte), so a one-byte value — uint 1..127, a one-byte string — is decoded as the empty/nil value and its byte is consumed; the round trip loses the value and two different inputs decode to the same thing")
+				}
+			}
+		}
+	}
+	r.Check(n >= 1, rule, "empty-test:sites", "", fmt.Sprintf("%d zero-size tests on Kind() results", n), "no `size == 0` test on a Stream.Kind() result found (makeOptionalPtrDecoder expected)")
+}
+
+// c08NoElementPointers: &slice[i] of a growing slice.
+func c08NoElementPointers(c *eng.Ctx, r *eng.Report) {
+	const rule = "R8.13"
+	r.Min(rule, 1)
+	// slice fields the package appends to
+	grown := map[string]bool{}
+	for _, fn := range c.PkgFuncs(rlpPkg) {
+		if c.IsTestFunc(fn) {
+			continue
+		}
+		for _, b := range fn.Blocks {
+			for _, in := range b.Instrs {
+				st, ok := in.(*ssa.Store)
+				if !ok {
+					continue
+				}
+				t, f := eng.FieldOf(st.Addr)
+				if t == "" {
+					continue
+				}
+				if call, isC := st.Val.(*ssa.Call); isC && eng.CallName(&call.Call) == "builtin:append" {
+					grown[t+"."+f] = true
+				}
+			}
+		}
+	}
+	elemOfGrown := func(v ssa.Value) string {
+		ia, ok := v.(*ssa.IndexAddr)
+		if !ok {
+			return ""
+		}
+		if _, isSlice := ia.X.Type().Underlying().(*types.Slice); !isSlice {
+			return ""
+		}
+		t, f := eng.FieldOf(unloadV(ia.X))
+		if t != "" && grown[t+"."+f] {
+			return t + "." + f
+		}
+		return ""
+	}
+	bad := ""
+	for _, fn := range c.PkgFuncs(rlpPkg) {
+		if c.IsTestFunc(fn) {
+			continue
+		}
+		for _, re := range eng.Returns(fn) {
+			for i := range re.Ret.Results {
+				if w := elemOfGrown(re.Incoming(i)); w != "" {
+					bad = eng.FuncName(fn) + " returns the address of an element of " + w + " (" + c.Pos(re.Ret.Pos()) + ")"
+				}
+			}
+		}
+		for _, b := range fn.Blocks {
+			for _, in := range b.Instrs {
+				if st, ok := in.(*ssa.Store); ok {
+					if w := elemOfGrown(st.Val); w != "" {
+						if t, _ := eng.FieldOf(st.Addr); t != "" {
+							bad = eng.FuncName(fn) + " stores the address of an element of " + w + " in a struct field (" + c.Pos(st.Pos()) + ")"
+						}
+					}
+				}
+			}
+		}
+	}
+	r.Check(bad == "" && len(grown) >= 2, rule, "element-pointers", "", fmt.Sprintf("%d slice fields are grown by append; no function hands out or keeps the address of one of their elements", len(grown)), bad+": the package appends to that slice, and when append reallocates the pointer refers to the old array — a list header written through it (listEnd stores the size) is lost, the list is emitted with size 0 and the encoding no longer decodes to the value")
+}
+
+func unloadV(v ssa.Value) ssa.Value {
+	if u, ok := v.(*ssa.UnOp); ok && u.Op == token.MUL {
+		return u.X
+	}
+	return v
 }
